@@ -209,11 +209,19 @@ pub fn exposing_template(idx: usize, p: &Pat) -> Tmpl {
     let (mut plain, mut seq) = (vec![], vec![]);
     collect(p, false, &mut plain, &mut seq);
     let mut items = vec![(Tmpl::Sym(format!("rule{}", idx)), false)];
+    let plain_names = plain.clone();
     for v in plain {
         items.push((Tmpl::Var(v), false));
     }
-    for v in seq {
-        items.push((Tmpl::List(vec![(Tmpl::Var(v), true)]), false));
+    for v in &seq {
+        items.push((Tmpl::List(vec![(Tmpl::Var(v.clone()), true)]), false));
+    }
+    // identifiers that are pattern variables of other rules but not of this one must stay plain symbols
+    for i in 0..3 {
+        let name = format!("p{}", i);
+        if !plain_names.contains(&name) && !seq.contains(&name) {
+            items.push((Tmpl::Sym(name), false));
+        }
     }
     Tmpl::List(items)
 }
@@ -368,7 +376,15 @@ fn gen_template(ch: &mut Chooser, plain: &[String], groups: &[Vec<String>], dept
     for _ in 0..n {
         match ch.weighted(&[5, 2, 2, 4, 2]) {
             0 if !plain.is_empty() => items.push((Tmpl::Var(plain[ch.below(plain.len())].clone()), false)),
-            1 => items.push((Tmpl::Sym(ch.pick_s(&["list", "quote-me", "t1", "if"]).to_string()), false)),
+            1 => {
+                // a plain identifier, sometimes one that is a pattern variable in another rule of the same set
+                let name = ch.pick_s(&["list", "quote-me", "t1", "if", "v1", "v2", "v3", "v4"]).to_string();
+                if plain.contains(&name) || groups.iter().any(|g| g.contains(&name)) {
+                    items.push((Tmpl::Sym("t1".into()), false));
+                } else {
+                    items.push((Tmpl::Sym(name), false));
+                }
+            }
             2 => items.push((Tmpl::Datum(atom_datum(ch)), false)),
             3 if !groups.is_empty() => {
                 // an ellipsis sub-template over the variables of one pattern ellipsis
@@ -462,7 +478,7 @@ fn mutate(ch: &mut Chooser, d: &Datum, literals: &[String]) -> Datum {
     }
 }
 
-fn random_case(ch: &mut Chooser) -> Report {
+pub fn random_case(ch: &mut Chooser) -> Report {
     let n_lit = ch.below(3);
     let literals: Vec<String> = ["else", "=>", "k"].iter().take(n_lit).map(|s| s.to_string()).collect();
     let n_rules = 1 + ch.below(5);
